@@ -172,6 +172,8 @@ pub struct HandlerRunner {
     /// C03: the WHOAREYOU being delivered echoes the nonce of a handshake this node sent for request RID,
     /// which is still in flight with exactly that packet: the request must fail now
     cur_wru_second: Option<u64>,
+    /// configured session cache capacity of the world
+    cap: usize,
     /// C04: how often a datagram carrying request RID of a node went out under one key
     tx_count: HashMap<(u64, u64, [u8; 16]), u32>,
     hs_delivered: HashMap<(u64, SocketAddr), u64>,
@@ -244,6 +246,7 @@ impl Default for HandlerRunner {
             key_ctr: HashMap::new(),
             cur_stale_authentic: None,
             cur_wru_second: None,
+            cap: 1000,
             tx_count: HashMap::new(),
             hs_delivered: HashMap::new(),
             entry_lo: HashMap::new(),
@@ -753,9 +756,12 @@ impl HandlerRunner {
                     events.push(format!("fail>{}>{}", rid, err_name(&e)));
                     let now = self.now_ms;
                     let timeout = self.timeout_ms;
-                    let addrs: Vec<SocketAddr> = self.entry_use.keys().filter(|(n, _)| *n == idx).map(|(_, a)| *a).collect();
-                    for a in addrs {
-                        self.entry_dirty.insert((idx, a));
+                    // (a timeout fails the requests to that peer and leaves its session alone)
+                    if !matches!(e, RequestError::Timeout) {
+                        let addrs: Vec<SocketAddr> = self.entry_use.keys().filter(|(n, _)| *n == idx).map(|(_, a)| *a).collect();
+                        for a in addrs {
+                            self.entry_dirty.insert((idx, a));
+                        }
                     }
                     if let Some(l) = self.ledger.reqs.get_mut(&(idx, rid)) {
                         l.failures += 1;
@@ -1237,6 +1243,7 @@ impl Runner for HandlerRunner {
                 self.retries = retries.parse().unwrap_or(1);
                 self.timeout_ms = timeout_ms.parse().unwrap_or(400);
                 let cap: usize = cap.parse().unwrap_or(1000);
+                self.cap = cap;
                 let ttl_ms: u64 = ttl_ms.parse().unwrap_or(86_400_000);
                 self.ttl_ms = ttl_ms;
                 let rt = tokio::runtime::Builder::new_current_thread().enable_all().start_paused(true).build().unwrap();
@@ -1534,6 +1541,14 @@ impl HandlerRunner {
                 if copies == 0 {
                     if let Some(k) = self.last_seal.get(&(xidx0, dst_addr)).copied() {
                         self.withheld.push((xidx0, dst_addr, k, rid));
+                    }
+                    // ... or nothing that ends a session has happened since this node last sealed something
+                    // for that address (no packet from there that failed to authenticate, no failed request
+                    // other than a timeout - which leaves the session alone -, no expiry, no eviction)
+                    let sealed_before = self.entry_lo_obs.keys().any(|(n, a, _)| *n == xidx0 && *a == dst_addr);
+                    if sealed_before && rid_override.is_none() && !self.entry_dirty.contains(&(xidx0, dst_addr)) && self.ttl_ms >= 86_400_000 && self.cap >= 100 {
+                        out.insert(o0, format!("!MON C20 response-withheld-although-nothing-ended-the-session node={} rid={}", xidx0, rid));
+                        out.insert(o0, format!("!MON C04 response-withheld-although-nothing-ended-the-session node={} rid={}", xidx0, rid));
                     }
                 }
             }
